@@ -225,7 +225,8 @@ def render(net, solver: str, method: str, path: Path, templates: list[str] | Non
 
 def compile_cpp(sources: list[Path], includes: list[Path], out: Path, flags: list[str] | None = None,
                 timeout: int = 600) -> subprocess.CompletedProcess:
-    cmd = ["g++", "-std=c++11", "-w", "-O0", *(flags or [])]
+    # -fsanitize=bounds: a subscript outside the DECLARED size of an array (locals, class members) stops the program with a diagnostic
+    cmd = ["g++", "-std=c++11", "-w", "-O0", "-fsanitize=bounds", "-fno-sanitize-recover=bounds", *(flags or [])]
     for i in includes:
         cmd += ["-I", str(i)]
     cmd += [str(s) for s in sources] + ["-o", str(out)]
